@@ -1,4 +1,4 @@
-from . import nfa_rules, dispatch, sharing
+from . import nfa_rules, dispatch, sharing, closure_rules
 LEVEL = "other"
 EXPLANATION = ("Theorem + checked side conditions: Thompson's construction and the closure construction are correct if the "
                "side conditions hold; the rules discharge them on the current MIR: builder lemmas (each builder's ε-structure, "
@@ -7,10 +7,11 @@ EXPLANATION = ("Theorem + checked side conditions: Thompson's construction and t
                "is only taken where ε is the operator's identity, fragment invariants, who-may-call/who-may-write of the graph "
                "mutators, completeness of shift_ids. Language equality for concrete pattern sets is not decided (it needs the "
                "compiled automata, i.e. running the compiler).")
-RULES = {"C02.a", "C02.b", "C02.c", "C02.f", "C02.g", "C01.g"}
+RULES = {"C02.a", "C02.b", "C02.c", "C02.d", "C02.e", "C02.f", "C02.g", "C01.g"}
 
 
 def check(ctx):
     nfa_rules.analyze(ctx, RULES)
     dispatch.analyze(ctx, RULES)
+    closure_rules.analyze(ctx, RULES)
     sharing.analyze(ctx, {"C02.f"})
